@@ -2,6 +2,8 @@ import XV.Driver.Util
 import XV.Model.Formatter
 import XV.Model.Cdata
 import XV.Model.Serializer
+import XV.Model.NsFixup
+import XV.Spec.Escaping
 import XV.Spec.Unescape
 namespace XV.Driver.Formatter
 open XV.Driver XV.Model.Formatter XV.Model.Cdata
@@ -88,10 +90,71 @@ def buildTree (script : String) : Option (List XV.Model.Serializer.Node) :=
 
 def encNameOf (enc : String) : List Nat := enc.toList.map Char.toNat
 
+/-! ### construction recipes -> Model.NsFixup trees (namespace fix-up) -/
+structure NFrame where
+  pfx : List Nat
+  uri : List Nat
+  attrs : List XV.Model.NsFixup.Attr
+  kids : List XV.Model.NsFixup.Elem      -- reversed
+
+def splitQName (q : List Nat) : List Nat × List Nat :=
+  match q.span (· ≠ 58) with
+  | (a, _ :: b) => (a, b)
+  | (a, []) => ([], a)
+
+def insertNsAttr (a : XV.Model.NsFixup.Attr) : List XV.Model.NsFixup.Attr → List XV.Model.NsFixup.Attr
+  | [] => [a]
+  | b :: t => if a.qname = b.qname then a :: t else if lexLt a.qname b.qname then a :: b :: t else b :: insertNsAttr a t
+
+def nfClose : List NFrame → List NFrame
+  | f :: g :: rest => { g with kids := .mk f.pfx f.uri f.attrs f.kids.reverse :: g.kids } :: rest
+  | st => st
+
+/-- none = the recipe is outside the model (an element without namespace, DOM level 1 nodes) -/
+def nfStep (st : List NFrame) (op : String) : Option (List NFrame) :=
+  match op.splitOn "," with
+  | ["E", ns, q] => match hexOrNull ns, parseHexList q with
+    | some (some u), some q => if u.isEmpty then none else some (⟨(splitQName q).1, u, [], []⟩ :: st)
+    | _, _ => none
+  | ["L", _] => none
+  | ["U"] => some (if st.length > 1 then nfClose st else st)
+  | ["A", ns, q, _] => match hexOrNull ns, parseHexList q, st with
+    | some u, some q, f :: rest =>
+      let a : XV.Model.NsFixup.Attr := ⟨if u.isSome then (splitQName q).1 else [], u.getD [], q⟩
+      some ({ f with attrs := insertNsAttr a f.attrs } :: rest)
+    | _, _, _ => none
+  | ["B", q, _] => match parseHexList q, st with
+    | some q, f :: rest => some ({ f with attrs := insertNsAttr ⟨[], [], q⟩ f.attrs } :: rest)
+    | _, _ => none
+  | _ => some st
+
+def nfBuild (script : String) : Option XV.Model.NsFixup.Elem :=
+  let st := (script.splitOn ";").foldl (fun acc op => acc.bind (fun st => if op.isEmpty then some st else nfStep st op)) (some [])
+  st.bind fun st =>
+    let rec closeAll : Nat → List NFrame → List NFrame
+      | 0, s => s
+      | n + 1, s => if s.length > 1 then closeAll n (nfClose s) else s
+    match closeAll st.length st with
+    | [f] => some (.mk f.pfx f.uri f.attrs f.kids.reverse)
+    | _ => none
+
+def strOf (l : List Nat) : String := String.ofList (l.map Char.ofNat)
+
+def insertSorted (x : String) : List String → List String
+  | [] => [x]
+  | y :: t => if x < y then x :: y :: t else y :: insertSorted x t
+
+/-- same text as the harness prints after `y=` -/
+def declSig (ds : List (List XV.Model.NsFixup.Use)) : String :=
+  String.join (ds.map fun d =>
+    "|E" ++ String.join (((d.map fun x => strOf x.1 ++ "=" ++ strOf x.2).foldl (fun acc x => insertSorted x acc) []).map ("," ++ ·)))
+
 /-- model side:
   FB <enc> <xml11 0|1> <fix 0|1> <esc 0-3> <unrep 0-2> <units>   formatBuf
   CD <enc> <mode a|f|n> <units>                                   procCdataSection as is / fixed / no split
+  NF <script>                                                     namespace declarations per element (NsFixup)
 spec side:
+  ES <enc> <xml11> <fx> <esc 0-3> <units>                         reference escaping (Spec.Escaping.escUnits)
   RD <xml11 0|1> <attr 0|1> <units>                               readChars -/
 def handle (line : String) : String :=
   match words line with
@@ -124,6 +187,16 @@ def handle (line : String) : String :=
       | .error .hang => if ft / 512 % 2 == 1 then "exc Trans_BadSrcSeq" else "hang"
       | r => showOut r
     | _, _, _ => "bad-op"
+  | ["ES", enc, v, fx, e, us] =>
+    -- Spec: the reference escaping the bytes must encode (XV.Spec.Escaping.escUnits)
+    match coderOf enc, escOf e, parseHexList us with
+    | some cd, some esc, some s => s!"ok {hexList (XV.Spec.Escaping.escUnits cd ⟨v == "1", (fx.toNat?.getD 0) % 2 == 1⟩ esc s)}"
+    | _, _, _ => "bad-op"
+  | ["NF", script] =>
+    -- the xmlns declarations the fix-up writes on every element of an API-built tree (XV.Model.NsFixup)
+    match nfBuild script with
+    | some e => "ok " ++ declSig (XV.Model.NsFixup.declsTree 64 [] e)
+    | none => "unsupported"
   | ["RD", v, a, us] =>
     match parseHexList us with
     | some s => match XV.Spec.Unescape.readChars (v == "1") (a == "1") s (.norm false 0) with
